@@ -161,7 +161,19 @@ extern "C" {
     fn _exit(code: i32) -> !;
 }
 
+fn fnv1a(s: &str) -> u64 {
+    let mut h: u64 = 0xcbf29ce484222325;
+    for b in s.as_bytes() {
+        h ^= *b as u64;
+        h = h.wrapping_mul(0x100000001b3);
+    }
+    h
+}
+
 fn process(line: &str, want_idents: bool, out: &mut dyn Write) {
+    let no_raw = std::env::args().any(|a| a == "--no-raw");
+    // --hash-body: the method bodies of the split items are reported as a 64-bit FNV-1a hash of their canonical token string (enough to compare them)
+    let hash_body = std::env::args().any(|a| a == "--hash-body");
     let mut parts = line.splitn(3, '\t');
     let id = parts.next().unwrap_or("");
     let mode = parts.next().unwrap_or("x");
@@ -195,7 +207,8 @@ fn process(line: &str, want_idents: bool, out: &mut dyn Write) {
         Err(_) => writeln!(out, "{{\"id\":{},\"st\":\"panic\"}}", esc(id)).unwrap(),
         Ok(Err(e)) => writeln!(out, "{{\"id\":{},\"st\":\"err\",\"msg\":{}}}", esc(id), esc(&e.to_string())).unwrap(),
         Ok(Ok(tokens)) => {
-            let raw = canon(tokens.clone());
+            // --no-raw: only the split items are wanted (the canonical string of the whole expansion is the larger half of the output)
+            let raw = if no_raw { String::new() } else { canon(tokens.clone()) };
             let mut s = format!("{{\"id\":{},\"st\":\"ok\",\"raw\":{}", esc(id), esc(&raw));
             match syn::parse2::<Items>(tokens.clone()) {
                 Ok(items) => {
@@ -210,7 +223,7 @@ fn process(line: &str, want_idents: bool, out: &mut dyn Write) {
                             arr(&it.generics),
                             esc(&it.self_ty),
                             arr(&it.preds),
-                            esc(&it.body)
+                            esc(&if hash_body { format!("#{:016x}", fnv1a(&it.body)) } else { it.body.clone() })
                         ));
                     }
                     s.push(']');
